@@ -34,7 +34,7 @@ PROF = gen.Profile(kinds=["region"] * 3 + ["task"] * 3 + ["idle", "mark", "flush
                    steps=(3, 30), modes=("legal",), lint=False, marks=1, ranks=True, breakdown=True)
 
 OBS_MUTS = ["flags", "jumbobit", "jumbosize", "truncate", "truncate-page", "clock", "payload-shape", "byteflip",
-            "insert", "mcv", "dup-event", "header", "longstr", "last-event", "last-event"]
+            "insert", "mcv", "dup-event", "header", "longstr", "last-event", "last-event", "arg-extreme", "arg-extreme"]
 JSON_MUTS = ["typeconf", "delkey", "number", "nest", "longstr", "slash", "emptyarr", "dupkey", "nonutf8",
              "truncjson", "emptyjson", "cpus", "marks", "require"]
 
@@ -153,6 +153,21 @@ def mutate_obs(data, kind, a, b, c, d):
             mcv = listed()[(d >> 3) % len(listed())]
             new = obs.encode_ev(mcv, e.clock, bytes([1 + d % 255]) * [0, 1, 3, 4, 7][k], jumbo=True)
         return data[:off] + new
+    if kind == "arg-extreme":
+        # one argument word of an event that has a payload becomes an extreme value (what a
+        # handler may use as an index: CPU, TID, task, type and mark numbers)
+        withp = [x for x in evs if len(x.payload) >= 4]
+        if not withp:
+            return data
+        e = withp[a % len(withp)]
+        base = e.offset + (16 if e.jumbo else 12)
+        wide = (c % 2 == 1) and len(e.payload) >= 8
+        w = 8 if wide else 4
+        k = (b % (len(e.payload) // w)) * w
+        ext = [0, -1, -2, 1, 2 ** 31 - 1, -2 ** 31, 2 ** 31, 2 ** 32 - 1, 100, 99, -100, 2 ** 63 - 1, -2 ** 63, 2 ** 62, 65536]
+        v = ext[(d >> 2) % len(ext)]
+        ba[base + k:base + k + w] = (v & (2 ** (8 * w) - 1)).to_bytes(w, "little")
+        return bytes(ba)
     if kind == "payload-shape":
         mcv = listed()[b % len(listed())]
         sizes = [0, 2, 3, 4, 7, 8, 12, 15, 16]
